@@ -18,7 +18,7 @@ const errgroupSetLimit = "(*golang.org/x/sync/errgroup.Group).SetLimit"
 
 type spawn struct {
 	In      ssa.Instruction
-	Closure *ssa.Function     // spawned closure body (nil when a non-literal function value is spawned)
+	Closure *ssa.Function // spawned closure body (nil when a non-literal function value is spawned)
 	MC      *ssa.MakeClosure
 	Group   ssa.Value // errgroup receiver (nil for plain go statements)
 }
@@ -134,7 +134,7 @@ func (c *Ctx) R3(rule string, pkgs ...string) []report.Obligation {
 		}
 		return false
 	}
-	accs := map[string][]access{} // "Type.field" -> accesses
+	accs := map[string][]access{}  // "Type.field" -> accesses
 	mutexOf := map[string]string{} // type -> "Type.mu"
 	for _, f := range c.P.Funcs {
 		if !inPkg(f) {
